@@ -427,6 +427,15 @@ func verifTextCarrier(a JsonNode, d Diff, options []Option) bool {
 	if d2.Render(options...) != s {
 		return false
 	}
+	// the same hunks: as many, each with the same strategy and the same path
+	if len(d2) != len(d) {
+		return false
+	}
+	for i := range d {
+		if d2[i].Metadata.Merge != d[i].Metadata.Merge || verifShow(d2[i].Path) != verifShow(d[i].Path) {
+			return false
+		}
+	}
 	r1, e1 := verifCloneNode(a).Patch(verifCloneDiff(d))
 	r2, e2 := verifCloneNode(a).Patch(d2)
 	if (e1 == nil) != (e2 == nil) {
